@@ -90,6 +90,7 @@ func genStrategy(ch chooser, n, t, self int, L int64) ByzStrategy {
 		}
 	}
 	s.Apology = ch.Pick("apology", 3, 2, 2)
+	s.AnswerLate = ch.Pick("answerLate", 3, 1) == 1
 	s.LateDeal = ch.Pick("lateDeal", 6, 1) == 1
 	s.LateAcc = ch.Pick("lateAcc", 3, 1) == 1
 	s.LateApo = ch.Pick("lateApo", 3, 1) == 1
@@ -174,7 +175,7 @@ func genScenario(ch chooser) Scenario {
 		st := sc.Byz[b]
 		st.Commit, st.LateDeal = cmCorrect, false
 		st.Eval[a] = []int{evWrong, evNone}[ch.Pick("templateEval", 1, 1)]
-		st.Apology, st.LateApo, st.EarlyApo = apCorrect, false, false
+		st.Apology, st.LateApo, st.EarlyApo, st.AnswerLate = apCorrect, false, false, false
 		sc.Byz[b] = st
 		L := int(sc.L)
 		sc.Fair = false
